@@ -2,14 +2,16 @@
 The *type* result of `convert.unify(types, unsafe)` (cty/convert/unify.go,
 sort_types.go, compare_types.go), as far as package convert's conversion files
 need it: it is the instance of `Convert.Env.unify` the correspondence driver
-uses.  No C08 theorem depends on this file (they quantify over every `Env`);
-the conversions `unify` also returns, and the theorems about it, are C09's.
+uses (through `Unify.unifyTy`, which computes the fuel from its argument:
+`Convert.driverEnv`).  The C08 theorems quantify over every `Env` satisfying
+`UnifyLaws`; `Lemmas/UnifyTyLaws.lean` proves it of `unifyTy` (`C08.unifyLaws_driver`).
+The conversions `unify` also returns, and the theorems about it, are C09's.
 
 `unify` and `getConversion` call each other (`unify` asks whether a conversion
 exists; `conversionTupleToList` etc. ask `unify` for an element type), so the
 function is indexed by fuel: `unifyTyF (n+1)` uses `unifyTyF n` for every nested
-call, through `Env`.  Out of fuel answers `none` (NilType); the driver's fuel is
-far above the nesting depth of the types it is given.
+call, through `Env`.  Out of fuel answers `none` (NilType); the driver's fuel
+(`Unify.fuelFor`: 3 × nesting depth + 8) is exercised up to depth 18 by harness/c08_d08.go.
 
 Where the Go code collects attribute types by ranging over a Go map
 (`unifyObjectTypesToMap`), the model uses ascending attribute-name order.
